@@ -93,7 +93,7 @@ class ProcessWorker(Worker):
             try:
                 self._ctrl_comms.parent_end.put('terminate')
                 self._ctrl_comms.parent_end.get()
-            except (BrokenPipeError, queue.Empty):
+            except (OSError, queue.Empty):
                 pass
 
             self._release_child()
